@@ -13,6 +13,10 @@ func init() {
 			if tier == "thorough" {
 				ch, cs = 16, 200
 			}
-			return []Stage{{Name: "cp", Scenario: "compact", Args: "props=C12+C01+C02+C03", Children: ch, Cases: cs, Timeout: 25 * time.Minute}}
+			st := []Stage{{Name: "cp", Scenario: "compact", Args: "props=C12+C01+C02+C03", Children: ch, Cases: cs, Timeout: 25 * time.Minute}}
+			if tier == "thorough" {
+				return append(st, crashStage("crashcp", "compact", "C12", 16, 6, 0, 3))
+			}
+			return append(st, crashStage("crashcp", "compact", "C12", 8, 1, 10, 1))
 		}}
 }
